@@ -386,6 +386,19 @@ def allowed_growth(doc: Optional[P.Doc], before: Dict[str, Any], after: Dict[str
 
 # ----------------------------------------------------------------------------- baseline worker
 
+def _try(f):
+    """An extraction that raises is a result too (the same input must raise the same way under
+    every history); recorded as {"exc": type name}."""
+    try:
+        return f()
+    except Exception as e:  # noqa: BLE001
+        return {"exc": type(e).__name__}
+
+
+def is_exc(x) -> bool:
+    return isinstance(x, dict) and set(x) == {"exc"}
+
+
 def baseline_job(data: bytes, pw: str, las: List[str], reverse: bool = False) -> Dict[str, Any]:
     res: Dict[str, Any] = {}
     order = list(las)
@@ -396,19 +409,23 @@ def baseline_job(data: bytes, pw: str, las: List[str], reverse: bool = False) ->
         steps = ["pages", "text", "singles", "tofp"]
         if reverse:
             steps.reverse()
-        n = None
         for st in steps:
             if st == "pages":
-                r["pages"] = [canon_page(p) for p in impl_pages_iter(data, pw, None, True, la)]
-                n = len(r["pages"])
+                r["pages"] = _try(lambda: [canon_page(p) for p in impl_pages_iter(data, pw, None, True, la)])
             elif st == "text":
-                r["text"] = impl_text(data, pw, None, True, la)
+                r["text"] = _try(lambda: impl_text(data, pw, None, True, la))
             elif st == "singles":
-                if n is None:
-                    n = len(list(impl_pages_iter(data, pw, None, True, la)))
-                r["singles"] = [impl_text(data, pw, [k], True, la) for k in range(n)]
+                n = _try(lambda: len(list(impl_pages_iter(data, pw, None, False, la))))
+                if is_exc(n):
+                    # count the pages without interpreting them
+                    from pdfminer.pdfpage import PDFPage
+                    n = _try(lambda: len(list(PDFPage.get_pages(io.BytesIO(data), password=pw))))
+                r["npages"] = n
+                r["singles"] = n if is_exc(n) else [_try(lambda k=k: impl_text(data, pw, [k], True, la)) for k in range(n)]
+                r["single_pages"] = n if is_exc(n) else [
+                    _try(lambda k=k: [canon_page(p) for p in impl_pages_iter(data, pw, [k], True, la)]) for k in range(n)]
             else:
-                r["tofp"] = {t: impl_tofp(data, pw, None, True, la, t).decode("utf-8", "surrogateescape")
+                r["tofp"] = {t: _try(lambda t=t: impl_tofp(data, pw, None, True, la, t).decode("utf-8", "surrogateescape"))
                              for t in ("text", "xml", "html", "tag")}
         res[la] = r
     return res
@@ -527,13 +544,29 @@ class Exec:
         if self.failure is None:
             self.failure = (idx, what, exp, got, tags)
 
-    def expected_pages(self, di: int, o) -> List[Any]:
+    def expected_pages(self, di: int, o) -> Any:
+        """Page-for-page expectation: page k of a selection is what extracting page k alone in a fresh
+        process gives (equal to page k of the all-pages baseline, checked in check_baseline_self)."""
         b = self.base[di][o["la"]]
-        return [b["pages"][k] for k in sel_pages(len(b["pages"]), o["pages"])]
+        if is_exc(b["single_pages"]):
+            return b["single_pages"]
+        out = []
+        for k in sel_pages(len(b["single_pages"]), o["pages"]):
+            if is_exc(b["single_pages"][k]):
+                return b["single_pages"][k]          # the first page that raises ends the call
+            out.extend(b["single_pages"][k])
+        return out
 
-    def expected_text(self, di: int, o) -> str:
+    def expected_text(self, di: int, o) -> Any:
         b = self.base[di][o["la"]]
-        return "".join(b["singles"][k] for k in sel_pages(len(b["singles"]), o["pages"]))
+        if is_exc(b["singles"]):
+            return b["singles"]
+        out = []
+        for k in sel_pages(len(b["singles"]), o["pages"]):
+            if is_exc(b["singles"][k]):
+                return b["singles"][k]
+            out.append(b["singles"][k])
+        return "".join(out)
 
     def run_op(self, idx: int, op: List[Any]) -> Dict[str, Any]:
         """Returns the observed state effects (compared with the model's reply)."""
@@ -545,12 +578,14 @@ class Exec:
         obs = None
         glyphs = None
         tags: Dict[str, Any] = {"op": kind}
+        exp: Any = None
+        ent = None
         try:
             if kind == "text":
                 _, di, o = op
                 doc = docs[di]
-                got = impl_text(doc.data, o["pw"], o["pages"], o["caching"], o["la"])
                 exp = self.expected_text(di, o)
+                got = impl_text(doc.data, o["pw"], o["pages"], o["caching"], o["la"])
                 if got != exp:
                     self.fail(idx, "extract_text differs from the fresh-process baseline", exp, got, tags)
             elif kind in ("pages", "single"):
@@ -558,24 +593,25 @@ class Exec:
                 if kind == "single":
                     o["pages"] = [op[3]]
                 doc = docs[di]
-                got = [canon_page(p) for p in impl_pages_iter(doc.data, o["pw"], o["pages"], o["caching"], o["la"])]
                 exp = self.expected_pages(di, o)
+                got = [canon_page(p) for p in impl_pages_iter(doc.data, o["pw"], o["pages"], o["caching"], o["la"])]
                 if got != exp:
                     self.fail(idx, "extract_pages differs page for page from the fresh-process baseline",
-                              [e[1] for e in exp], [g[1] for g in got], tags)
+                              exp if is_exc(exp) else [e[1] for e in exp], [g[1] for g in got], tags)
             elif kind == "tofp":
                 _, di, o, ot = op
                 doc = docs[di]
-                got = impl_tofp(doc.data, o["pw"], o["pages"], o["caching"], o["la"], ot).decode("utf-8", "surrogateescape")
-                if ot == "text" and o["pages"]:
+                allp = self.base[di][o["la"]]["tofp"][ot]
+                exp = allp
+                if ot == "text" and o["pages"] and not is_exc(allp):
                     # text output of a subset = concatenation of the pages' own outputs
                     exp = None
-                    allp = self.base[di][o["la"]]["tofp"]["text"]
                     parts = allp.split("\f")
                     if len(parts) == doc.npages + 1:
                         exp = "".join(parts[k] + "\f" for k in sel_pages(doc.npages, o["pages"]))
-                else:
-                    exp = self.base[di][o["la"]]["tofp"][ot]
+                elif ot == "text" and o["pages"]:
+                    exp = None
+                got = impl_tofp(doc.data, o["pw"], o["pages"], o["caching"], o["la"], ot).decode("utf-8", "surrogateescape")
                 if exp is not None and got != exp:
                     self.fail(idx, f"extract_text_to_fp({ot}) differs from the fresh-process baseline", exp, got,
                               dict(tags, output_type=ot))
@@ -584,17 +620,24 @@ class Exec:
                 doc = docs[di]
                 if hk == "ll":
                     hd = LLHandle(doc.data, o["pw"], o["pages"], o["caching"], o["la"])
-                    self.handles[h] = ["ll", di, o, hd, 0]
+                    self.handles[h] = ["ll", di, o, hd, 0, False]
                     obs = self.ll_state(hd)
                 else:
                     self.handles[h] = ["hl", di, o, impl_pages_iter(doc.data, o["pw"], o["pages"], o["caching"],
-                                                                    o["la"]), 0]
+                                                                    o["la"]), 0, False]
             elif kind == "next":
                 ent = self.handles.get(op[1])
-                if ent is not None:
-                    hk, di, o, hd, pos = ent
+                if ent is not None and not ent[5]:
+                    hk, di, o, hd, pos, _dead = ent
                     doc = docs[di]
-                    exp = self.expected_pages(di, o)
+                    b = self.base[di][o["la"]]
+                    ks = sel_pages(doc.npages, o["pages"])
+                    exp = None
+                    if pos < len(ks):
+                        sp = b["single_pages"]
+                        exp = sp if is_exc(sp) else sp[ks[pos]] if is_exc(sp[ks[pos]]) else sp[ks[pos]][0]
+                    ent[4] = pos + 1
+                    tags["interleaved"] = True
                     if hk == "ll":
                         r = hd.next()
                         got = None if r is None else r[1]
@@ -605,30 +648,34 @@ class Exec:
                             got = canon_page(next(hd))
                         except StopIteration:
                             got = None
-                    want = exp[pos] if pos < len(exp) else None
-                    ent[4] = pos + 1
-                    tags["interleaved"] = True
-                    if got != want:
+                    if got != exp:
                         self.fail(idx, "page iterator yields a page that differs from the fresh-process baseline",
-                                  want and want[1], got and got[1], tags)
+                                  exp if exp is None or is_exc(exp) else exp[1], got and got[1], tags)
             elif kind == "close":
                 ent = self.handles.pop(op[1], None)
                 if ent is not None:
-                    hk, di, o, hd, pos = ent
+                    hk, di, o, hd, pos, dead = ent
                     doc = docs[di]
                     if hk == "ll":
-                        bad = check_cache_inv(hd)
-                        if bad is not None:
-                            self.fail(idx, "cache_inv: " + bad[0], bad[2], bad[3], dict(tags, objid=bad[1]))
+                        if not dead:
+                            bad = check_cache_inv(hd)
+                            if bad is not None:
+                                self.fail(idx, "cache_inv: " + bad[0], bad[2], bad[3], dict(tags, objid=bad[1]))
                     else:
                         hd.close()
+                    ent = None
             elif kind == "cmapparse":
                 extra = (op[1], "CIDInit", "ProcSet", "CMapName", "Mine")
                 self.cmapparse(idx, op[1], tags)
         except Exception as e:  # noqa: BLE001
             import traceback
-            self.fail(idx, f"operation raised {type(e).__name__} (the baseline did not)", "a result",
-                      traceback.format_exc()[-600:], dict(tags, exception=type(e).__name__))
+            if kind == "next" and ent is not None:
+                ent[5] = True          # an iterator that raised is not used any further
+            if not (is_exc(exp) and exp["exc"] == type(e).__name__):
+                self.fail(idx, f"operation raised {type(e).__name__} (the fresh-process baseline did not)",
+                          "a result" if not is_exc(exp) else exp,
+                          traceback.format_exc()[-600:], dict(tags, exception=type(e).__name__))
+            obs = glyphs = None
         after = snapshot()
         bad2 = allowed_growth(doc, before, after, extra)
         if bad2 is not None:
@@ -702,13 +749,26 @@ def check_baseline_self(ctx: C.Ctx, seed: str, docs: List[P.Doc], base: List[Dic
     for d, b in zip(docs, base):
         for la, r in b.items():
             ctx.branch("baseline:" + la)
-            if "".join(r["singles"]) != r["text"]:
+            if is_exc(r["npages"]) or r["npages"] != d.npages:
+                # the generator's description of the document no longer matches the implementation
+                ctx.disagree("c12.pagecount", {"pool": seed, "doc": d.idx, "la": la}, r["npages"], d.npages)
+                continue
+            o = {"caching": True, "pages": None, "la": la, "pw": d.user}
+            inp = {"pool": seed, "size": len(docs), "docs_hex": {str(d.idx): d.data.hex()}}
+
+            def first_exc(xs):
+                return next((x for x in xs if is_exc(x)), None)
+            want_text = first_exc(r["singles"]) or "".join(r["singles"])
+            if r["text"] != want_text:
                 ctx.fail(C.Failure("extract_text page-at-a-time differs from all pages together (fresh process)",
-                                   {"pool": seed, "size": len(docs), "ops": [["text", d.idx, {"caching": True, "pages": None,
-                                                                                           "la": la, "pw": d.user}]]},
-                                   r["text"], "".join(r["singles"]), {"op": "page-at-a-time"}))
-            if len(r["pages"]) != d.npages:
-                raise C.Infra(f"generator/implementation disagree on the page count of doc {d.idx}")
+                                   dict(inp, ops=[["text", d.idx, o]]), r["text"], want_text, {"op": "page-at-a-time"}))
+            want_pages = first_exc(r["single_pages"]) or [p for sp in r["single_pages"] for p in sp]
+            if r["pages"] != want_pages:
+                ctx.fail(C.Failure("extract_pages page-at-a-time differs page for page from all pages together "
+                                   "(fresh process)", dict(inp, ops=[["pages", d.idx, o]]),
+                                   r["pages"] if is_exc(r["pages"]) else [p[1] for p in r["pages"]],
+                                   want_pages if is_exc(want_pages) else [p[1] for p in want_pages],
+                                   {"op": "page-at-a-time"}))
 
 
 def run_history(ctx: C.Ctx, seed: str, docs: List[P.Doc], base, ops: List[List[Any]], record: bool = True) -> Optional[Exec]:
